@@ -21,6 +21,24 @@ CHECKS = {
     "C02": ("exploration", "trace monitoring of every commit event: STEP (order, exactly-once, equality with in-order step i), VER (committed reads name committed versions), TS (no finality on a validation older than a covering rewind) under directors aimed at the claim->lock, scan->timestamp and publish->rewind windows",
             "Online event log of the real scheduler checked offline by value-independent monitors (VER/TS) and by step-wise comparison with the in-order run (STEP); directors hold threads inside the few-instruction windows the property names. Held on the traces observed.",
             "DESIGN.md §4 C02"),
+    "C03": ("exploration", "differential runtime monitoring on blocks with 0-60% invalid transactions (all InvalidTransaction families, validity depending on earlier in-block transactions, nonce check on/off): outcomes incl. Skipped(reason), per-step commit/skip events and bundle vs in-order stock revm",
+            "Skips are compared by exact InvalidTransaction value at every commit/skip step and in the final outcomes, state changes by bundle and canonical delta; the three deciding places (speculative execution, commit-time nonce comparison, sequential replay) are told apart in the evidence by event counts. Held on the executions observed.",
+            "DESIGN.md §4 C03"),
+    "C04": ("fault_enumeration", "fault injection at the database boundary: per generated block, every key touched by the in-order run or by any speculative attempt x {persistent error, fail-1st, fail-2nd access}, result judged against the in-order stock-revm run on an identically planned faulty database (error index and payload, exact outcome/state prefix, read-back)",
+            "Per block the (key x mode) space over the touched-key set is enumerated (capped at 14 keys per block, stale-only keys first); blocks, configurations and schedules are sampled. Persistent faults are judged by equality with the in-order run on the same faulty database, transient ones by 'absorbed or exact prefix at a transaction that in order accesses the key'.",
+            "DESIGN.md §4 C04"),
+    "C05": ("exploration", "bounded-progress monitoring: coordinator parks made timeout-free (a lost wake-up or stranded transaction becomes a stable hang), stall watchdog deciding on logical conditions (no event, nobody inside a delay/DB call/execution, workers spinning) and classifying from a scheduler dump; injected database errors, latencies and panics; thread start/end balance and panic payload identity",
+            "Every execution must return without the stall timers; a stable no-progress state is diagnosed and reported with its cause. Liveness is restated as bounded progress on the schedules produced, it is not a liveness proof.",
+            "DESIGN.md §4 C05, §2.3"),
+    "C07": ("exploration", "differential runtime monitoring with the beneficiary in every role (plain, absent, empty, sender, contract with storage, near-overflow balance), per-commit-step comparison of the beneficiary account, VER check of the beneficiary read chain",
+            "Beneficiary state is compared after every commit step (canonical delta) and transactions that read the beneficiary are compared by output; the VER monitor checks that a committed beneficiary read names exactly the committed reward chain. Held on the executions observed.",
+            "DESIGN.md §4 C07"),
+    "C08": ("exploration", "differential runtime monitoring on destroy / re-create / storage-reset workloads across Frontier..Osaka with readers before, between and after; read-back of the returned state",
+            "Outcomes, per-step deltas, bundle statuses/reverts and read-back are compared with in-order stock revm for generated lifecycles on hot addresses in all rule sets. Held on the executions observed.",
+            "DESIGN.md §4 C08"),
+    "C09": ("exploration", "differential runtime monitoring on EIP-7702 authorisation sequences (set, re-point, clear, repeated/invalid authorisations, pre-delegated accounts) and in-block deployments interleaved with calls and EXTCODE* probes",
+            "Outcomes, per-step deltas and bundle are compared with in-order stock revm on Prague/Osaka authorisation workloads and on deployment workloads for all forks, under directors that hold readers between the Basic and Code publications. Held on the executions observed.",
+            "DESIGN.md §4 C09"),
 }
 
 NOT_YET = {
